@@ -12,7 +12,7 @@ import signal
 import sys
 import time
 
-from . import core, attach, reach
+from . import core, attach, reach, faults
 
 
 def _on_timer(signum, frame):
@@ -36,6 +36,7 @@ def run(spec):
         mod = importlib.import_module('rv.props.' + prop.lower())
         mod.setup(concepts, spec)
         reach.install(spec['repo'])
+        faults.install(spec['repo'])
         if spec.get('strict_warnings'):
             import warnings
             # a warning attributed to the library's own modules is an error, as under `-W error`;
